@@ -258,7 +258,11 @@ func (g *Gen) indexFor(n int, p path) Expr {
 		}
 		return &Binary{Op: "%", L: g.genExprNoSideFx(U32, 1), R: al, Ty: U32}
 	}
-	if g.fx == nil || r.Chance(1, 2) || g.exprDepthLeft() <= 0 {
+	valueBase := p.root != nil && !p.root.IsRefVar() && p.root.Ty.Kind != KPtr
+	if valueBase && g.on("index.dynamic-on-value") {
+		g.feat("index.dynamic-on-value")
+	}
+	if g.fx == nil || r.Chance(1, 2) || g.exprDepthLeft() <= 0 || (valueBase && !g.on("index.dynamic-on-value")) {
 		k := r.Intn(n)
 		switch r.Intn(3) {
 		case 0:
